@@ -13,6 +13,7 @@ Extraction "model.ml" Z.add N.add Nat.add
   Queue.reset_prediction Queue.set_frame_delay Queue.set_frame_delay_old
   TimeSync.ts_new TimeSync.ts_advance_frame TimeSync.ts_average_frame_advantage
   TimeSync.ts_round_trip_time TimeSync.ts_update_local_frame_advantage TimeSync.ts_report_frame_advantage
+  TimeSync.gate_init TimeSync.gate_step
   Endpoint.ep_new Endpoint.step Endpoint.drain Endpoint.network_stats Endpoint.last_recv_frame Endpoint.is_running Endpoint.is_synchronized Z.mul Z.div Z.modulo
   P2P.p2p_new P2P.gossip P2P.advance P2P.api_add_local_input P2P.api_disconnect_player P2P.api_set_input_delay
   SyncTest.st_new SyncTest.st_add_local_input SyncTest.st_advance_frame SyncTest.st_saved
